@@ -157,14 +157,13 @@ fn c05_residency_bucket_hash() {
     kani::cover!(b == 15, "last bucket");
 }
 
-// @family prop=C05 tier=quick timeout=900 role=residency-history
-// @bounds concrete (operation, key) sequences of 2..=4 steps (listed per harness) over 4 keys: R0,R1 same bucket; R2 same first 8 bytes as R0 (same murmur filter slot) in another bucket; R3 same filter slot and same bucket as R0; span offset/length symbolic (full i32); after every step is_resident of all 4 keys + entry_count, at the end scan_keys
-// @encodes cascette_client_storage::kmt::key_state::ResidencyDb::mark_resident, cascette_client_storage::kmt::key_state::ResidencyDb::mark_non_resident, cascette_client_storage::kmt::key_state::ResidencyDb::mark_span_non_resident, cascette_client_storage::kmt::key_state::ResidencyDb::delete_keys, cascette_client_storage::kmt::key_state::ResidencyDb::is_resident, cascette_client_storage::kmt::key_state::ResidencyDb::entry_count, cascette_client_storage::kmt::key_state::ResidencyDb::scan_keys, cascette_client_storage::kmt::key_state::ResidencyDb::insert_entry, cascette_client_storage::kmt::key_state::ResidencyDb::update_hash_index_for_key
-// @assumes key choice concrete per harness (symbolic key choice does not finish); real murmurhash3_finalize and hashlittle; delete_keys below BATCH_DELETE_THRESHOLD (the >10000-key batch path builds a std HashSet: outside); save/load not exercised
-// @catches in-place overwrite not keeping the filter in sync (re-mark after unmark reported non-resident), filter false negative for keys sharing 8 bytes, wrong bucket scanned, duplicate entry on re-mark (entry_count / scan_keys), span-non-resident counted as resident, delete of one key hitting its bucket neighbour
-res_history!(c05_residency_h_mark_unmark_remark, [MarkR(0), MarkNr(0), MarkR(0)]);
-res_history!(c05_residency_h_shared_prefix, [MarkR(0), MarkR(2), MarkNr(0), MarkR(3)]);
-res_history!(c05_residency_h_span_then_mark, [MarkR(1), Span(1), MarkR(0), MarkR(1)]);
-res_history!(c05_residency_h_delete_two, [MarkR(0), MarkR(3), MarkR(1), Del2(3, 1)]);
-res_history!(c05_residency_h_delete_absent, [MarkR(0), Del1(3), Span(2)]);
-// @end
+// NOT REGISTERED (measured): `buckets: [Vec<ResidencyPage>; 16]` — the Vec lengths inside the array are
+// opaque to CBMC's constant propagation (same NonNull effect as in the index map), so every scan is
+// unrolled 16 x 17 x 17 times; [MarkR, MarkNr, MarkR] with is_resident + entry_count after each step:
+// symex not finished in 900 s; with is_resident only: not finished in 700 s.
+// family prop=C05 tier=quick timeout=900 role=residency-history
+// bounds: concrete (operation, key) sequences of 2..=4 steps (listed per harness) over 4 keys: R0,R1 same bucket; R2 same first 8 bytes as R0 (same murmur filter slot) in another bucket; R3 same filter slot and same bucket as R0; span offset/length symbolic (full i32); after every step is_resident of all 4 keys + entry_count, at the end scan_keys
+// encodes: cascette_client_storage::kmt::key_state::ResidencyDb::mark_resident, cascette_client_storage::kmt::key_state::ResidencyDb::mark_non_resident, cascette_client_storage::kmt::key_state::ResidencyDb::mark_span_non_resident, cascette_client_storage::kmt::key_state::ResidencyDb::delete_keys, cascette_client_storage::kmt::key_state::ResidencyDb::is_resident, cascette_client_storage::kmt::key_state::ResidencyDb::entry_count, cascette_client_storage::kmt::key_state::ResidencyDb::scan_keys, cascette_client_storage::kmt::key_state::ResidencyDb::insert_entry, cascette_client_storage::kmt::key_state::ResidencyDb::update_hash_index_for_key
+// assumes: key choice concrete per harness (symbolic key choice does not finish); real murmurhash3_finalize and hashlittle; delete_keys below BATCH_DELETE_THRESHOLD (the >10000-key batch path builds a std HashSet: outside); save/load not exercised
+// catches: in-place overwrite not keeping the filter in sync (re-mark after unmark reported non-resident), filter false negative for keys sharing 8 bytes, wrong bucket scanned, duplicate entry on re-mark (entry_count / scan_keys), span-non-resident counted as resident, delete of one key hitting its bucket neighbour
+// (instantiate e.g. `res_history!(c05_residency_h_mark_unmark_remark, [MarkR(0), MarkNr(0), MarkR(0)]);` to re-measure)
